@@ -149,20 +149,27 @@ pub fn phase_reload(e: &E2e, keep: &[u8], remove: u8, add: u8, next_seq: u32) ->
 
 /// C18: the real Unix control socket answers like the stdin dispatcher; notifications get nothing.
 pub fn phase_control(e: &E2e, lines: &[String]) -> CheckResult {
-    let stream = match UnixStream::connect(&e.ctl_path) {
+    phase_control_at(&e.ctl_path, &e.config, None, lines)
+}
+
+/// The same comparison against any running control socket. `twin`: a stdin-side configuration that has seen
+/// the same history (created from the live one when None).
+pub fn phase_control_at(ctl_path: &std::path::Path, live: &DynamicConfig, twin: Option<&DynamicConfig>, lines: &[String]) -> CheckResult {
+    let stream = match UnixStream::connect(ctl_path) {
         Ok(s) => s,
         Err(err) => return viol("e2e-harness", format!("cannot connect to the control socket: {err}")),
     };
     stream.set_read_timeout(Some(Duration::from_secs(10))).ok();
     let mut w = stream.try_clone().unwrap();
     let mut r = BufReader::new(stream);
-    let twin = DynamicConfig::new();
+    let own_twin = DynamicConfig::new();
+    let twin = twin.unwrap_or(&own_twin);
     // bring the twin to the live configuration
-    let s = e.config.snapshot();
-    let _ = dispatch(&twin, None, None, &format!(r#"{{"jsonrpc":"2.0","method":"set_mode","params":{{"mode":"{}"}}}}"#, s.mode));
-    let _ = dispatch(&twin, None, None, &format!(r#"{{"jsonrpc":"2.0","method":"set_quality","params":{{"enabled":{}}}}}"#, s.quality_enabled));
-    let _ = dispatch(&twin, None, None, &format!(r#"{{"jsonrpc":"2.0","method":"set_stall_deselect","params":{{"enabled":{}}}}}"#, s.stall_deselect));
-    let _ = dispatch(&twin, None, None, &format!(r#"{{"jsonrpc":"2.0","method":"set_conn_timeout","params":{{"ms":{}}}}}"#, s.conn_timeout_ms));
+    let s = live.snapshot();
+    let _ = dispatch(twin, None, None, &format!(r#"{{"jsonrpc":"2.0","method":"set_mode","params":{{"mode":"{}"}}}}"#, s.mode));
+    let _ = dispatch(twin, None, None, &format!(r#"{{"jsonrpc":"2.0","method":"set_quality","params":{{"enabled":{}}}}}"#, s.quality_enabled));
+    let _ = dispatch(twin, None, None, &format!(r#"{{"jsonrpc":"2.0","method":"set_stall_deselect","params":{{"enabled":{}}}}}"#, s.stall_deselect));
+    let _ = dispatch(twin, None, None, &format!(r#"{{"jsonrpc":"2.0","method":"set_conn_timeout","params":{{"ms":{}}}}}"#, s.conn_timeout_ms));
     let read_line = |r: &mut BufReader<UnixStream>| -> Result<String, Violation> {
         let mut l = String::new();
         match r.read_line(&mut l) {
@@ -178,7 +185,7 @@ pub fn phase_control(e: &E2e, lines: &[String]) -> CheckResult {
         if line.contains("get_stats") || line.contains("subscri") || line.contains("critical") {
             continue;
         }
-        let expect = dispatch(&twin, None, None, line).map(|x| serde_json::from_str::<Value>(&x.to_json()).unwrap());
+        let expect = dispatch(twin, None, None, line).map(|x| serde_json::from_str::<Value>(&x.to_json()).unwrap());
         w.write_all(line.as_bytes()).and_then(|_| w.write_all(b"\n")).map_err(|err| Violation { sig: "e2e-control-no-answer".into(), msg: format!("write failed: {err}") })?;
         // sentinel: its answer must be the next line if `line` is a notification
         let sentinel = format!(r#"{{"jsonrpc":"2.0","id":"sentinel-{i}","method":"no_such_method_sentinel"}}"#);
@@ -207,7 +214,7 @@ pub fn phase_control(e: &E2e, lines: &[String]) -> CheckResult {
             }
         }
         // the live configuration follows
-        let a = e.config.snapshot();
+        let a = live.snapshot();
         let b = twin.snapshot();
         vensure!(
             a.mode == b.mode && a.quality_enabled == b.quality_enabled && a.stall_deselect == b.stall_deselect && a.conn_timeout_ms == b.conn_timeout_ms,
